@@ -31,27 +31,27 @@ CHECKS = {
  "C15": dict(
    level="exploration", design="§4 C15",
    technique="runtime monitoring: outcome-class monitor at the client boundary (rows|error vs panic, process death, deadlock, divergence) with journal attribution of process deaths to one statement, plus a session-state probe (catalog listing, table digest, settings, SELECT 1) after every statement compared with the probe before a failed statement",
-   text="Five streams per run: ~3 600 token-level mutations of valid statements (the statement texts of /repo/slt/standard, C01-generator queries, DDL/DML/SET), 600 random strings over SQL fragments/control/multi-byte characters, ~90 listed ill-typed / unsupported / failing-at-run-time statements (planner thread and worker), 23 structure-stress kinds x depths 10..10^4 (one process each), and every function/operator form x argument type tuples over a table of extreme values (~10 000 expressions). Sessions of 60 statements on the deterministic executor and on the production thread pool (every sixth session).",
+   text="Five streams per run (every other session with verify_optimized_plan on): ~3 600 token-level mutations of valid statements (the statement texts of /repo/slt/standard, C01-generator queries, DDL/DML/SET), 600 random strings over SQL fragments/control/multi-byte characters, ~90 listed ill-typed / unsupported / failing-at-run-time statements (planner thread and worker), 23 structure-stress kinds x depths 10..10^4 (one process each), and every function/operator form x argument type tuples over a table of extreme values (~10 000 expressions). Sessions of 60 statements on the deterministic executor and on the production thread pool (every sixth session).",
    note="Allocation failures below 2^40 bytes under the harness' address-space cap are resource exhaustion and counted as inconclusive. Stack overflows for deep nesting are recorded as known findings per nesting kind; numeric overflow panics share the C12 signatures. Repaired through this check: CREATE TABLE AS leaving a table behind after a failed statement; left/right/split_part negating i64::MIN."),
  "C18": dict(
    level="exploration", design="§4 C18",
    technique="runtime monitoring: four-way consistency monitor over executions — DESCRIBE rows, announced output schema, DataType of every produced Array and variant/precision/scale/unit of every produced value (the last two compared inside the driver at the client boundary) — plus re-binding of the same expression in other syntactic places and fresh sessions",
-   text="Type-resolution sweep: every scalar/aggregate function name of list_functions(), every binary operator and the CASE/COALESCE/IN/BETWEEN/list/cast forms x argument tuples over 23 column types (all arity-1 tuples; arity-2/3 sampled in quick, exhaustive arity-2 in thorough). DESCRIBE decides which tuples bind; every binding expression is executed over a 4-row table and the four observations must agree; a sample is re-bound as UNION ALL branch, CTE, derived table, CREATE TABLE AS (+DESCRIBE of the table), GROUP BY key and over typed literals with constant folding on/off, and must get the same type and name. Unification (UNION ALL, CASE, COALESCE, VALUES) over ordered type pairs, random queries of the C01 generator, DESCRIBE of tables/views/table functions, SHOW, DML counts.",
+   text="Type unification (UNION ALL with one to three mismatched columns in both directions, CASE, COALESCE, VALUES) over ordered type pairs, and a type-resolution sweep: every scalar/aggregate function name of list_functions(), every binary operator and the CASE/COALESCE/IN/BETWEEN/list/cast forms x argument tuples over 23 column types (all arity-1 tuples; arity-2/3 sampled in quick, exhaustive arity-2 in thorough). DESCRIBE decides which tuples bind; every binding expression is executed over a 4-row table and the four observations must agree; a sample is re-bound as UNION ALL branch, CTE, derived table, CREATE TABLE AS (+DESCRIBE of the table), GROUP BY key and over typed literals with constant folding on/off, and must get the same type and name. Unification (UNION ALL, CASE, COALESCE, VALUES) over ordered type pairs, random queries of the C01 generator, DESCRIBE of tables/views/table functions, SHOW, DML counts.",
    note="No model of the overload rules is used: only agreement between observations of the same engine. Panics met while executing odd argument tuples are counted here and judged by C15. Four defects found by this check were repaired (SHOW announced Utf8; arithmetic re-bind widened decimals; int/float->decimal casts with scale >= 10 overflowed at bind; substring with start <= 0 never returned)."),
  "C14": dict(
    level="exploration", design="§4 C14",
    technique="runtime monitoring: client-boundary history of DDL/DML/SET statements with uniquely identified rows, checked offline against a sequential model of catalog + table contents + settings; histories run under the deterministic executor (random/lifo/fifo/pct schedules, forced yields) and the production thread pool",
-   text="Random histories (30-150 statements, 1-3 sessions of one engine, statements interleaved) over schemas, temp tables in 3 layouts, views, CREATE TABLE AS, INSERT VALUES / INSERT SELECT (from the target itself, from other tables, wrong arity, failing on the k-th row), SET/RESET/RESET ALL/invalid SET, appends and self-inserts crossing the 32768-row flush threshold. Every row carries a unique id; at random points and at the end the object lists, table contents, view contents, DESCRIBE output and settings of every session are diffed against the model, and each statement's ok/error class and reported row count must match.",
+   text="Random histories (30-150 statements, 1-3 sessions of one engine, statements interleaved) over schemas, temp tables in 3 layouts, views, CREATE TABLE AS, INSERT VALUES / INSERT SELECT (from the target itself, under batch sizes up to 8192 so that appended batches split over several storage chunks, from other tables, wrong arity, failing on the k-th row), SET/RESET/RESET ALL/invalid SET, appends and self-inserts crossing the 32768-row flush threshold. Every row carries a unique id; at random points and at the end the object lists, table contents, view contents, DESCRIBE output and settings of every session are diffed against the model, and each statement's ok/error class and reported row count must match.",
    note="Only temp objects exist in this engine build (no persistent catalog), so 'catalog' means the session's temp catalog. Error messages are not compared; dropping a non-empty schema has no documented rule and is not generated. Two defects found by this check were repaired (self-insert reads own writes / never terminates; VALUES rounds later decimal rows)."),
  "C17": dict(
    level="exploration", design="§4 C17",
    technique="runtime monitoring: RFC-4180 reference oracle (Python csv configured with the dialect/header decision reported by hook H3) over executions of read_csv; chunking-invariance monitor (one file under ChaosFs read sizes 1..4097, Pending, batch sizes, partitions must give identical rows)",
-   text="Generated CSV/TSV files over delimiter x quote x header x LF/CRLF x quoting policy x final newline x column kinds (ints, floats, booleans in all spellings, mixed, text with embedded delimiters/quotes/CR/LF/multi-byte characters) x sizes below and above the 4096-byte inference sample are read 5-9 times each under different read chunkings, batch sizes and partition counts. Rows must equal Python's csv parse under the reported dialect (empty field = NULL, values parsed by the inferred type), column names the header record, inferred types the narrowest of BOOLEAN<BIGINT<DOUBLE<TEXT for files inside the sample, and all read configurations of a file must agree.",
+   text="Files whose 4096-byte inference sample ends inside a boolean / after a minus sign / inside an exponent, multi-byte character, quoted field or digit run (types must be the narrowest over the records complete inside the sample), and generated CSV/TSV files over delimiter x quote x header x LF/CRLF x quoting policy x final newline x column kinds (ints, floats, booleans in all spellings, mixed, text with embedded delimiters/quotes/CR/LF/multi-byte characters) x sizes below and above the 4096-byte inference sample are read 5-9 times each under different read chunkings, batch sizes and partition counts. Rows must equal Python's csv parse under the reported dialect (empty field = NULL, values parsed by the inferred type), column names the header record, inferred types the narrowest of BOOLEAN<BIGINT<DOUBLE<TEXT for files inside the sample, and all read configurations of a file must agree.",
    note="Files that are ragged under the reported dialect, or whose later rows do not fit the type inferred from the sample, have no specified outcome; only consistency across chunkings is required for them. Needs hook H3 (csv_infer note)."),
  "C19": dict(
    level="fault_enumeration", design="§4 C19",
    technique="runtime monitoring with fault injection: every truncation, enumerated byte corruptions of all metadata regions and targeted metadata lies of small valid files (written by the independent writer) are fed to the real reader, one engine per mutant, under CPU-time and address-space limits; outcome-class monitor (rows/error vs panic, abort, allocation failure, non-termination) with journal attribution",
-   text="For each base file (18 type/encoding layouts x 5 codecs x page v1/v2 x 1-3 row groups): every truncation length (exhaustive), every byte of the footer, page headers, dictionary pages and level regions x {0x00,0xFF,^0x01,^0x80} plus 10% of data bytes, and ~20 metadata fields x 7 lie values; plus ~50 malformed CSV files. 20-65k mutants per quick run. A mutant that panics, kills the process, exceeds 20 CPU-seconds or the 4 GiB cap refutes the property; each recorded panic site is a known finding keyed by (message class, source file).",
+   text="For each base file (18 type/encoding layouts x 5 codecs x page v1/v2 x 1-3 row groups): every truncation length (exhaustive), ~45 whole-field values of the trailer's footer length, every byte of the footer, page headers, dictionary pages and level regions x {0x00,0xFF,^0x01,^0x80} plus 10% of data bytes, and ~20 metadata fields x 7 lie values; plus ~50 malformed CSV files. 20-65k mutants per quick run. A mutant that panics, kills the process, exceeds 20 CPU-seconds or the 4 GiB cap refutes the property; each recorded panic site is a known finding keyed by (message class, source file).",
    note="Process deaths are attributed through the journal (START line before each case). Three of the defects found this way were repaired (chunk range past EOF: spin/abort; footer length unchecked); 24 panic sites and 2 allocation aborts are recorded in known_findings.jsonl."),
  "C10": dict(
    level="exploration", design="§4 C10",
@@ -66,7 +66,7 @@ CHECKS = {
  "C09": dict(
    level="exploration", design="§4 C09",
    technique="runtime monitoring: per-outer-row nested-evaluation oracle (reference interpreter on the generator's AST) for correlated subqueries; metamorphic oracle over CTE / MATERIALIZED CTE / VIEW / inlined forms of one inner query; recorded-deviation switches tied to semantic triggers",
-   text="A generator weighted to scalar/EXISTS/IN/ANY/ALL/LATERAL subqueries, correlated through filters, projections and aggregates and placed in the select list, WHERE and under NOT (where NULL vs FALSE is visible), is executed on databases with NULL and duplicate correlation values and inner sets that are empty for some outer rows; every result is compared with per-outer-row nested evaluation. The same inner query is then run as WITH, WITH MATERIALIZED, TEMP VIEW and inlined derived table (referenced once or twice) and the four results must agree; the documented MATERIALIZED+random() example must return true. Three recorded deviations (two-valued IN/ANY/ALL, COUNT bug, NULL correlation = empty set) are recognised only when their semantic trigger fired in the specification run.",
+   text="Correlated EXISTS/IN/scalar subqueries whose body has its own GROUP BY/HAVING (also through derived tables) are judged against direct nested evaluation in Python; and a generator weighted to scalar/EXISTS/IN/ANY/ALL/LATERAL subqueries, correlated through filters, projections and aggregates and placed in the select list, WHERE and under NOT (where NULL vs FALSE is visible), is executed on databases with NULL and duplicate correlation values and inner sets that are empty for some outer rows; every result is compared with per-outer-row nested evaluation. The same inner query is then run as WITH, WITH MATERIALIZED, TEMP VIEW and inlined derived table (referenced once or twice) and the four results must agree; the documented MATERIALIZED+random() example must return true. Three recorded deviations (two-valued IN/ANY/ALL, COUNT bug, NULL correlation = empty set) are recognised only when their semantic trigger fired in the specification run.",
    note="Self-joins of one CTE run into recorded optimizer defect optimizer-cte-self-join and are covered by fixed cases instead of the random stream."),
  "C07": dict(
    level="exploration", design="§4 C07",
@@ -86,7 +86,7 @@ CHECKS = {
  "C04": dict(
    level="exploration", design="§4 C04",
    technique="runtime monitoring: harness-owned deterministic scheduler (controls which partition pipeline is polled next; yields, spurious polls, duplicate wakes) with logical deadlock/divergence verdicts and result invariance; H1 operator-protocol monitors; offline replay of the production scheduler's H2 event log against its 4-flag state machine; cancellation probes",
-   text="33 barrier-bearing query shapes x 4 data sizes x partition counts are run sequentially and then under controlled schedules (7 policies, yields at operator-call granularity, spurious and duplicated wake-ups); a schedule that deadlocks (run queue empty, client unfinished), exceeds the step budget, changes the result, swallows an injected task error or breaks the operator call protocol refutes the property. The same shapes run on the real rayon thread pool with seeded pauses in the schedule/execute windows; every scheduler event is replayed against the state machine (finished task re-run, overlapping executions, idle with pending wake). Cancelled queries must end with an error or their rows. ~2000 distinct schedules and ~160k scheduler events per quick run; exploration, not enumeration.",
+   text="56 query shapes (33 barrier-bearing shapes, and 22 of them again under a LIMIT that is satisfied early) x 4 data sizes x partition counts are run sequentially and then under controlled schedules (7 policies, yields at operator-call granularity, spurious and duplicated wake-ups); a schedule that deadlocks (run queue empty, client unfinished), exceeds the step budget, changes the result, swallows an injected task error or breaks the operator call protocol refutes the property. The same shapes run on the real rayon thread pool with seeded pauses in the schedule/execute windows; every scheduler event is replayed against the state machine (finished task re-run, overlapping executions, idle with pending wake). Cancelled queries must end with an error or their rows. ~2000 distinct schedules and ~160k scheduler events per quick run; exploration, not enumeration.",
    note="The det executor enumerates orders of operator calls, not machine instructions; sub-lock interleavings are only sampled by the native runs. The wasm runtime twin is not executed. A wall-clock timeout on the native executor is inconclusive."),
  "C02": dict(
    level="exploration", design="§4 C02",
@@ -101,12 +101,12 @@ CHECKS = {
  "C01": dict(
    level="exploration", design="§4 C01",
    technique="runtime monitoring: reference-model oracle (naive SQL interpreter on the generator's AST) over executions of generated composed queries under a deterministic controlled scheduler with yields; outcome-class monitor",
-   text="Random databases x type-directed random composed SELECTs (joins, grouping sets, DISTINCT, UNION, ORDER BY/LIMIT, CTEs, derived tables, LATERAL, scalar/EXISTS/IN/ANY/ALL subqueries) are executed by the real engine (random partitions 1-8, batch sizes 1-2048, random schedules) and every result is compared as a bag / ordered sequence / admissible slice with a reference interpreter; engine errors on statements the model accepts are violations. Held on the sampled executions only. Query shapes that run into recorded defects are skipped (counted per finding) and each recorded defect is re-checked on a fixed case.",
+   text="Random databases (plus a few single-table databases of 2500-7000 rows with wide key domains, so that hash tables grow while holding groups) x type-directed random composed SELECTs (joins, grouping sets, DISTINCT, UNION, ORDER BY/LIMIT, CTEs, derived tables, LATERAL, scalar/EXISTS/IN/ANY/ALL subqueries) are executed by the real engine (random partitions 1-8, batch sizes 1-2048, random schedules) and every result is compared as a bag / ordered sequence / admissible slice with a reference interpreter; engine errors on statements the model accepts are violations. Held on the sampled executions only. Query shapes that run into recorded defects are skipped (counted per finding) and each recorded defect is re-checked on a fixed case.",
    note="Trusts vf/refsql.py (cross-checked against SQLite in ./check setup), the typed value encoding of vdrive, and the avoid rules in vf/avoid.py being no wider than the recorded defects."),
  "C12": dict(
    level="exploration", design="§4 C12",
    technique="runtime monitoring: exact-arithmetic oracle (Python int/Fraction) over engine executions; outcome-class monitor (value/error/panic/process death) with journal attribution",
-   text="Every integer operator is executed on all 8-bit operand pairs (exhaustive sub-space) and on boundary-biased pairs of wider types, decimals over swept (p,s) pairs, SUM/AVG incl. accumulator overflow; each returned value is compared with exact arithmetic and each unrepresentable case must end in an error. Held-on-what-was-run, not a proof: wider operand spaces are sampled.",
+   text="Every integer operator is executed on all 8-bit operand pairs (exhaustive sub-space) and on boundary-biased pairs of wider types, decimals over swept (p1,s1,p2,s2) combinations with one case per operator, every pair also on its own and errors judged against the result type announced by DESCRIBE, SUM/AVG incl. accumulator overflow; each returned value is compared with exact arithmetic and each unrepresentable case must end in an error. Held-on-what-was-run, not a proof: wider operand spaces are sampled.",
    note="Trusts Python integer/Fraction arithmetic and the harness value encoding; integer division semantics (truncation) taken from the operators' documentation examples. Debug assertions and overflow checks are ON in the harness build, so a wrap shows up as a panic."),
 }
 
